@@ -188,10 +188,11 @@ def read_data(fh, mcnp_version, block_type=None, recursion=False):
                 f"The line: {old_line} exceeded the allowed line length of: {line_length} for MCNP {mcnp_version}",
                 errors.LineOverRunWarning,
             )
-        if line.endswith(" &\n"):
-            continue_input = True
-        else:
-            continue_input = False
+        # a comment line (its "c" is in columns 1-5) neither continues an input nor ends a
+        # continuation; an input is continued by an "&" that ends the line (trailing blanks
+        # do not count) and is not part of a "$" comment
+        if not (line_is_comment and line[0:BLANK_SPACE_CONTINUE].strip()):
+            continue_input = "$" not in line and line.rstrip().endswith(" &")
         has_non_comments = has_non_comments or not line_is_comment
         input_raw_lines.append(line.rstrip())
     yield from flush_block()
